@@ -5,13 +5,13 @@ HERE = os.path.dirname(os.path.dirname(os.path.abspath(__file__)))
 
 CHECKS = {
  "C01": ("metamorphic monitor (cross-signature differential) on 60-digit runs of the real compute layer + dispatch-variant tap",
-         "3.C01", "Metamorphic runtime monitor: every public operation is executed on 60-digit object vectors for every coordinate-system signature of the same geometric operands; canonicalised results must agree with the all-Cartesian signature (1e-35; violation >= 1e-20); a tap on _from_signature proves all 2404 dispatch variants were reached. Held = on the sampled operands of every stratum; the real line is sampled, signatures are exhaustive.",
+         "3.C01", "Metamorphic runtime monitor: every public operation is executed on 60-digit object vectors for every coordinate-system signature of the same geometric operands; canonicalised results must agree with the all-Cartesian signature (1e-35; violation >= 1e-20); a tap on _from_signature proves all 2404 dispatch variants were reached. Held = on the sampled operands of every stratum; the real line is sampled, signatures are exhaustive. A float64 layer repeats the comparison on well-conditioned float64 objects (collinear and exact-zero strata included) at 1e-9 x conditioning.",
          "mpmath correctness; MpLib adapter mirrors NumPy only at singular points (not judged); baseline signature is Cartesian (shared defects are C02's)"),
  "C02": ("reference-model monitor (independent mpmath model of the documentation) on 60-digit and float64 runs",
-         "3.C02", "Reference-model runtime monitor: each operation's result on 60-digit objects (all signatures) and on float64 object/NumPy vectors (exact binary inputs, well-conditioned core) is compared with an independent executable model of the documented definitions.",
+         "3.C02", "Reference-model runtime monitor: each operation's result on 60-digit objects (all signatures) and on float64 object/NumPy vectors (exact binary inputs, well-conditioned core) is compared with an independent executable model of the documented definitions; every catalogued call is repeated with its arguments passed under the documented keyword names, and the live signatures (names, order, kinds, defaults) of all 528 public methods are compared with the pinned documented ones.",
          "the model's reading of the documentation (DESIGN 2.2); float64 judged on the well-conditioned core at 1e-9"),
  "C03": ("differential monitor: object vs NumPy vs Awkward on identical float64 inputs across shapes/layouts/routes/pairings", "3.C03",
-         "Cross-backend differential runtime monitor: every operation on 8-element batches as object calls, NumPy arrays (6 shapes, strided views, mixed with objects) and Awkward arrays/records (9 layouts, 3 construction routes incl. hand-named momentum records, mixed pairings); element i must equal the object result (1e-11), shapes/list structure/missing positions/record names preserved.",
+         "Cross-backend differential runtime monitor: every operation on 8-element batches as object calls, NumPy arrays (6 shapes, strided views, mixed with objects) and Awkward arrays/records (9 layouts, 3 construction routes incl. hand-named momentum records, mixed pairings); element i must equal the object result (1e-11), shapes/list structure/missing positions/record names preserved. Physical layout twins of the same logical array (ListArray with gaps, IndexedArray, non-zero offsets, byte/bit-masked and unmasked option nodes, strided leaves; big-endian / padded / strided / float32 / int NumPy columns), extra fields deeper than the vectors, out= forms of the ufuncs with several layouts of the out array, arrays re-read after in-place field assignment; alternate shards run with vector.register_awkward().",
          "object backend is the reference (C02 judges it); well-conditioned operands"),
  "C04": ("exhaustive configuration lattice + bit-for-bit stored-coordinate oracles (mp, float64 object, NumPy, Awkward)", "3.C04",
          "Runtime oracle over the exhaustive lattice of 20 sources x 40 to_* targets x 4 backends x 2 flavors and every projection/embedding keyword spelling: round trips (1e-35 / 1e-9), own-system conversions and retained coordinates bit-for-bit, imputed keyword values in the named coordinate type, conflicting keywords rejected.",
@@ -38,7 +38,7 @@ CHECKS = {
          "State monitor + history/determinism checker: process state (numpy error state/errcall/print options, warnings filters, awkward.behavior, registration flag, dispatch maps, class links) is compared before/after every dispatch and call under 5 prior configurations, on returning, raising and singular calls; registration idempotence in fresh processes; an exception injected at every line of every dispatch function; K-call lists run by 16 threads with forced GIL hand-offs must reproduce the sequential results bit-for-bit; racing lazy first imports from fresh processes.",
          "schedules are those the stress produced (counted in the evidence); CPython GIL"),
  "C16": ("snapshot monitor: bit-exact operand snapshots before/after every call of the cross-backend sweep + dedicated actions", "3.C16",
-         "Invariant monitor: operands (object slots, NumPy root buffers/dtype names/shape/strides/class, Awkward form+buffers+behavior) are snapshotted before and after every catalogued call in every array variant, and around operators, numpy functions, reductions, conversions with keywords, aliasing a.op(a), read-only arrays, pickle/copy/view.",
+         "Invariant monitor: operands (object slots, NumPy root buffers/dtype names/shape/strides/class, Awkward form+buffers+behavior) are snapshotted before and after every catalogued call in every array variant, and around operators, numpy functions, reductions, conversions with keywords, aliasing a.op(a), read-only arrays, pickle/copy/view; non-vector array operands (weights, exponents, angles, keyword arrays) and constructor inputs (arrays, dicts, dtype objects, behavior mappings) are operands too.",
          "result/operand memory sharing is counted, not judged"),
  "C18": ("layout generator + structure/field/record oracles on Awkward results", "3.C18",
          "Runtime oracle on 12 Awkward layouts x 3 routes x all operations: list structure, missing positions and nesting type preserved; extra fields (numeric, string, nested list) carried unchanged by single-array operations; two-vector arithmetic returns coordinates only; record names; records taken out of arrays behave like the equivalent object for every operation.",
@@ -47,13 +47,13 @@ CHECKS = {
          "Differential runtime monitor: the set of numba-supported attributes/methods/functions is recorded by wrapping numba.extending.overload* before the backend is imported; generated probe programs (attributes, unary methods incl. 12 literal Euler orders, binary methods, chains, in-jit construction, operators/NumPy functions, loops over Awkward arrays) are run interpreted and compiled for every coordinate system and flavor of self and sampled systems/flavors of the other operand; class, flavor, dimension, system exact, values at 1e-9.",
          "py_func is the reference; programs it rejects are not judged; faulthandler on (supplementary)"),
  "C08": ("differential monitor: SymPy expressions evaluated at rational points vs the real compute layer at 60 digits, regularity observed by a witness", "3.C08",
-         "Differential runtime monitor: for every operation/system/flavor the SymPy backend's expression is substituted with exact rationals and evaluated to 50 digits, then compared (1e-12) with the 60-digit result of the same operation on the real compute code; the MpLib witness says, per point, whether a clamp, NaN replacement or sign convention was exercised (then the point is skipped and counted).",
+         "Differential runtime monitor: for every operation/system/flavor the SymPy backend's expression is substituted with exact rationals and evaluated to 50 digits, then compared (1e-12) with the 60-digit result of the same operation on the real compute code; the MpLib witness says, per point, whether a clamp, NaN replacement or sign convention was exercised; such a point is skipped (and counted) only if that convention is among the ones pinned for that operation at regular operands (vmon/sympy_conventions.json), otherwise it is compared like any other.",
          "float literals in the compute layer limit agreement to ~1e-15; isclose and symbolic polar scale factors are documented limitations"),
  "C09": ("algebraic-law monitor on public boost methods (mp + float64)", "3.C09",
-         "Law monitor: invariance, inverse, composition and cross-spelling identities of boosts are evaluated on the public API for every system of vector and booster, 60-digit and float64; both sides of each law are produced by the library, compared through the monitor's own readout.",
+         "Law monitor: invariance, inverse, composition and cross-spelling identities of boosts are evaluated on the public API for every system of vector and booster, 60-digit and float64; both sides of each law are produced by the library, compared through the monitor's own readout; accuracy laws without a gamma^2 allowance (boostX/Y/Z(gamma=), boosts by a mass-stored booster, generic vs explicit spellings) against the 60-digit reference for gamma up to 1e6.",
          "tau-stored operands forward timelike; tolerance scaled by gamma^2"),
  "C10": ("algebraic-law monitor on public rotation methods (mp + float64)", "3.C10",
-         "Law monitor: isometry, handedness, time untouched bit-for-bit, composition/inverse, and equivalence of rotate_axis/rotateXYZ/quaternion/Euler(12 orders, both cases)/nautical spellings, every coordinate system, 60-digit and float64; Euler additionally against explicit reference matrices.",
+         "Law monitor: isometry, handedness, time untouched bit-for-bit, composition/inverse, and equivalence of rotate_axis/rotateXYZ/quaternion/Euler(12 orders, both cases)/nautical spellings, every coordinate system, 60-digit and float64; Euler additionally against explicit reference matrices; every rotation also called by its documented keyword names.",
          "documented Euler rule as read in DESIGN 2.2"),
  "C11": ("algebraic-law monitor on add/subtract/scale/dot/cross/unit and operator spellings (mp + float64 + arrays)", "3.C11",
          "Law monitor: vector-space, dot, cross, unit laws for every ordered pair of coordinate systems (184 pairs), both flavors, operators and numpy functions; abs/**/sqrt/cbrt/power on object, NumPy and Awkward.",
